@@ -68,7 +68,7 @@ def _has_finite(t):
     return any(isinstance(x, float) and math.isfinite(x) for x in xs)
 
 
-def gen_goal(rng, priority, T, mode, orders, allow_vector, allow_critical=False, allow_relax=True):
+def gen_goal(rng, priority, T, mode, orders, allow_vector, allow_critical=False, allow_relax=True, allow_offset=True):
     path = rng.random() < 0.65
     vec = allow_vector and rng.random() < 0.35
     if vec:
@@ -85,13 +85,17 @@ def gen_goal(rng, priority, T, mode, orders, allow_vector, allow_critical=False,
         s["nominal"] = [rng.choice([1.0, 10.0, 0.5, 2.0]) for _ in range(size)]
     else:
         s["nominal"] = [rng.choice([1.0, 1.0, 10.0, 0.5])]
+    # goal function = variable + constant offset (same offset for all components: keeps target shapes simple)
+    o = rng.choice([0.0, 0.0, 0.0, 7.0, -2.5]) if allow_offset else 0.0
+    if o:
+        s["offset"] = [o] * size
     if kind == "min":
         return s
-    s["range"] = ([VAR_RANGE[v][0] for v in vars_], [VAR_RANGE[v][1] for v in vars_])
+    s["range"] = ([VAR_RANGE[v][0] + o for v in vars_], [VAR_RANGE[v][1] + o for v in vars_])
     if size > 1 and len(set(s["range"][0])) == 1 and len(set(s["range"][1])) == 1 and rng.random() < 0.5:
         s["range"] = ([s["range"][0][0]], [s["range"][1][0]])
-    lo = max(TARGET_BASE[v][0] for v in vars_)
-    hi = min(TARGET_BASE[v][1] for v in vars_)
+    lo = int(max(TARGET_BASE[v][0] for v in vars_) + math.ceil(o))
+    hi = int(min(TARGET_BASE[v][1] for v in vars_) + math.floor(o))
     if kind in ("tmin", "both"):
         for _ in range(20):
             t = _fix_inf(gen_target(rng, path, size, T, lo, hi), -1)
@@ -122,6 +126,29 @@ def gen_goal(rng, priority, T, mode, orders, allow_vector, allow_critical=False,
     elif allow_relax and mode == "default" and rng.random() < 0.2:
         s["relaxation"] = rng.choice([0.1, 0.5])
     return s
+
+
+def square_risk(inst):
+    """matcher of known finding F49: with fix_minimized_values, goals of different priorities on
+    the same function (different function keys) leave redundant equality rows; once the number of
+    equalities reaches the number of variables IPOPT treats the problem as a square feasibility
+    problem, skips the optimisation and reports success at its starting point"""
+    if not inst["opts"].get("fix_minimized_values"):
+        return False
+    seen = {}
+    for s in inst["goals"]:
+        if s.get("critical"):
+            continue
+        for v in s["vars"]:
+            key = (v, s["path"], None if s["path"] else s["ti"])
+            seen.setdefault(key, set()).add(int(s["priority"]))
+            if s["path"]:
+                pass
+    # a path goal also covers the point goals on the same variable
+    for (v, path, ti), pr in list(seen.items()):
+        if not path and (v, True, None) in seen:
+            seen[(v, True, None)] |= pr
+    return any(len(p) > 1 for p in seen.values())
 
 
 def gen_instance(rng, mode=None, solver="highs", orders=(1,), max_prio=3, allow_vector=None,
@@ -175,6 +202,9 @@ def gen_instance(rng, mode=None, solver="highs", orders=(1,), max_prio=3, allow_
     rng.shuffle(goals)
     # the first priority must not consist of critical goals only with nothing to optimise: fine for
     # the code, but uninformative; keep as generated.
+    inst["goals"] = goals
+    if solver == "ipopt" and square_risk(inst):
+        inst["opts"]["fix_minimized_values"] = False
     if linearize:
         inst["linearize"] = True
         for s in goals:  # higher-order minimisation goals are rejected by the linearising mixin
